@@ -60,9 +60,9 @@ theorem normalize_wf (legacy : Bool) (e : Entry) (h : validate legacy (normalize
 
 /-! ### writes preserve the invariant -/
 
-theorem putEntry_names {es : List Entry} (h : es.Pairwise fun a b => a.name ≠ b.name) (e : Entry) :
-    (putEntry es e).Pairwise fun a b => a.name ≠ b.name := by
-  unfold putEntry
+theorem putEntryX_names {es : List Entry} (h : es.Pairwise fun a b => a.name ≠ b.name) (e : Entry) :
+    (putEntryX es e).Pairwise fun a b => a.name ≠ b.name := by
+  unfold putEntryX
   split
   · rw [List.pairwise_map]
     apply h.imp
@@ -77,8 +77,8 @@ theorem putEntry_names {es : List Entry} (h : es.Pairwise fun a b => a.name ≠ 
     simp only [List.any_eq_true, decide_eq_true_eq, not_exists, not_and] at hnone
     exact hnone a ha
 
-theorem mem_putEntry {es : List Entry} {e x : Entry} (hx : x ∈ putEntry es e) : x = e ∨ x ∈ es := by
-  unfold putEntry at hx
+theorem mem_putEntryX {es : List Entry} {e x : Entry} (hx : x ∈ putEntryX es e) : x = e ∨ x ∈ es := by
+  unfold putEntryX at hx
   split at hx
   · simp only [List.mem_map] at hx
     obtain ⟨y, hy, rfl⟩ := hx
@@ -89,18 +89,26 @@ theorem mem_putEntry {es : List Entry} {e x : Entry} (hx : x ∈ putEntry es e) 
     · exact Or.inr h
     · exact Or.inl (by simpa using h)
 
-theorem storeWF_putEntry {st : Store} (h : StoreWF st) {e : Entry} (he : EntryWF e) :
-    StoreWF { st with entries := putEntry st.entries e } where
-  names := putEntry_names h.names e
-  entries := by
-    intro x hx
-    rcases mem_putEntry hx with rfl | hx'
-    · exact he
-    · exact h.entries x hx'
-  rowIds := h.rowIds
-  rowKeys := h.rowKeys
-  rowLocal := h.rowLocal
-  rowNamed := h.rowNamed
+theorem storeWF_putEntry {st : Store} (h : StoreWF st) {e : Entry} (he : EntryWF e) (hle : Lower e.name) :
+    StoreWF { st with entries := putEntry st.entries e } := by
+  rw [putEntry_lower h.lowerEntries hle]
+  exact {
+    names := putEntryX_names h.names e
+    entries := by
+      intro x hx
+      rcases mem_putEntryX hx with rfl | hx'
+      · exact he
+      · exact h.entries x hx'
+    rowIds := h.rowIds
+    rowKeys := h.rowKeys
+    rowLocal := h.rowLocal
+    rowNamed := h.rowNamed
+    lowerEntries := by
+      intro x hx
+      rcases mem_putEntryX hx with rfl | hx'
+      · exact hle
+      · exact h.lowerEntries x hx'
+    lowerRows := h.lowerRows }
 
 theorem storeWF_deleteEntry {st : Store} (h : StoreWF st) (n : Name) : StoreWF (deleteEntry st n) where
   names := h.names.filter _
@@ -109,24 +117,38 @@ theorem storeWF_deleteEntry {st : Store} (h : StoreWF st) (n : Name) : StoreWF (
   rowKeys := h.rowKeys
   rowLocal := h.rowLocal
   rowNamed := h.rowNamed
+  lowerEntries := fun x hx => h.lowerEntries x (List.mem_filter.mp hx).1
+  lowerRows := h.lowerRows
+
+theorem getEntry_mem {es : List Entry} {n : Name} {e : Entry} (h : getEntry es n = some e) : e ∈ es :=
+  List.mem_of_find?_eq_some h
+
+theorem findByLegacyId_mem {es : List Entry} {id : Name} {e : Entry} (h : findByLegacyId es id = some e) : e ∈ es := by
+  unfold findByLegacyId at h
+  have := List.mem_of_mem_head? h
+  exact (List.mem_filter.mp (mem_isort.mp this)).1
 
 /-- the shape shared by all config-entry writes: normalize, validate, then replace the entry -/
-theorem storeWF_commit {st : Store} (h : StoreWF st) (legacy : Bool) (e : Entry) :
+theorem storeWF_commit {st : Store} (h : StoreWF st) (legacy : Bool) (e : Entry) (hle : Lower e.name) :
     StoreWF (match validate legacy (normalize legacy e) with
       | some err => (st, some err)
       | none => ({ st with entries := putEntry st.entries (normalize legacy e) }, none)).1 := by
   cases hv : validate legacy (normalize legacy e) with
   | some err => exact h
-  | none => exact storeWF_putEntry h (normalize_wf legacy e hv)
+  | none => exact storeWF_putEntry h (normalize_wf legacy e hv) hle
 
-theorem storeWF_applyEntry {st : Store} (h : StoreWF st) (e : Entry) : StoreWF (applyEntry st e).1 :=
-  storeWF_commit h false e
+theorem storeWF_applyEntry {st : Store} (h : StoreWF st) (e : Entry) (hle : Lower e.name) : StoreWF (applyEntry st e).1 :=
+  storeWF_commit h false e hle
 
-theorem storeWF_mutUpsert {st : Store} (h : StoreWF st) (dst : Name) (v : Src) : StoreWF (mutUpsert st dst v).1 := by
+theorem storeWF_mutUpsert {st : Store} (h : StoreWF st) (dst : Name) (v : Src) (hld : Lower dst) :
+    StoreWF (mutUpsert st dst v).1 := by
   unfold mutUpsert
   split
   · exact h
-  · exact storeWF_commit h false _
+  · apply storeWF_commit h false
+    cases hg : getEntry st.entries dst with
+    | none => exact hld
+    | some prev => exact h.lowerEntries prev (getEntry_mem hg)
 
 theorem storeWF_mutDelete {st : Store} (h : StoreWF st) (dst src : Name) : StoreWF (mutDelete st dst src).1 := by
   unfold mutDelete
@@ -134,31 +156,67 @@ theorem storeWF_mutDelete {st : Store} (h : StoreWF st) (dst src : Name) : Store
   · exact h
   · split
     · exact h
-    · split
+    · next prev hg =>
+      split
       · exact h
       · exact storeWF_deleteEntry h _
-      · exact storeWF_commit h false _
+      · exact storeWF_commit h false _ (h.lowerEntries prev (getEntry_mem hg))
 
-theorem storeWF_mutLegacyCreate {st : Store} (h : StoreWF st) (dst : Name) (v : Src) :
+theorem storeWF_mutLegacyCreate {st : Store} (h : StoreWF st) (dst : Name) (v : Src) (hld : Lower dst) :
     StoreWF (mutLegacyCreate st dst v).1 := by
   unfold mutLegacyCreate
   split
   · exact h
   · split
-    · exact storeWF_commit h true _
-    · split
+    · exact storeWF_commit h true _ hld
+    · next prev hg =>
+      split
       · exact h
-      · exact storeWF_commit h true _
+      · exact storeWF_commit h true _ (h.lowerEntries prev (getEntry_mem hg))
 
-theorem storeWF_legacySet {st : Store} (h : StoreWF st) (id : Name) (r : Ixn)
-    (hr : r.peer = [] ∧ r.src ≠ [] ∧ r.dst ≠ []) :
-    StoreWF (legacySet st id r).1 := by
-  unfold legacySet
+theorem storeWF_mutLegacyUpdate {st : Store} (h : StoreWF st) (id : Name) (v : Src) :
+    StoreWF (mutLegacyUpdate st id v).1 := by
+  unfold mutLegacyUpdate
   split
   · exact h
   · split
     · exact h
-    · simp only
+    · next prev hg =>
+      split
+      · exact h
+      · split
+        · exact h
+        · exact storeWF_commit h true _ (h.lowerEntries prev (findByLegacyId_mem hg))
+
+theorem storeWF_mutLegacyDelete {st : Store} (h : StoreWF st) (id : Name) : StoreWF (mutLegacyDelete st id).1 := by
+  unfold mutLegacyDelete
+  split
+  · exact h
+  · split
+    · exact h
+    · next prev hg =>
+      split
+      · exact h
+      · split
+        · exact h
+        · exact storeWF_deleteEntry h _
+        · exact storeWF_commit h true _ (h.lowerEntries prev (findByLegacyId_mem hg))
+
+theorem storeWF_legacySet {st : Store} (h : StoreWF st) (id : Name) (r : Ixn)
+    (hr : r.peer = [] ∧ r.src ≠ [] ∧ r.dst ≠ []) (hlr : Lower r.src ∧ Lower r.dst) :
+    StoreWF (legacySet st id r).1 := by
+  have hany : (st.rows.any fun x => sameName x.2.src r.src && sameName x.2.dst r.dst && x.1 ≠ id) =
+      st.rows.any fun x => x.2.src = r.src && x.2.dst = r.dst && x.1 ≠ id := by
+    apply any_congr_mem
+    intro x hx
+    rw [sameName_lower (h.lowerRows x hx).1 hlr.1, sameName_lower (h.lowerRows x hx).2 hlr.2]
+  unfold legacySet
+  simp only [hany]
+  split
+  · exact h
+  · split
+    · exact h
+    · try simp only
       split
       · exact h
       · next hdup =>
@@ -166,7 +224,7 @@ theorem storeWF_legacySet {st : Store} (h : StoreWF st) (id : Name) (r : Ixn)
           List.any_eq_true, Bool.and_eq_true, decide_eq_true_eq, not_exists, not_and] at hdup
         split
         · -- update of the row with this id
-          refine ⟨h.names, h.entries, ?_, ?_, ?_, ?_⟩
+          refine ⟨h.names, h.entries, ?_, ?_, ?_, ?_, h.lowerEntries, ?_⟩
           · simp only
             rw [List.pairwise_map]
             apply h.rowIds.imp
@@ -210,10 +268,16 @@ theorem storeWF_legacySet {st : Store} (h : StoreWF st) (id : Name) (r : Ixn)
             split
             · exact ⟨hr.2.1, hr.2.2⟩
             · exact h.rowNamed y hy
+          · intro x hx
+            simp only [List.mem_map] at hx
+            obtain ⟨y, hy, rfl⟩ := hx
+            split
+            · exact hlr
+            · exact h.lowerRows y hy
         · -- a new row
           next hnew =>
           simp only [List.any_eq_true, decide_eq_true_eq, not_exists, not_and] at hnew
-          refine ⟨h.names, h.entries, ?_, ?_, ?_, ?_⟩
+          refine ⟨h.names, h.entries, ?_, ?_, ?_, ?_, h.lowerEntries, ?_⟩
           · simp only
             rw [List.pairwise_append]
             refine ⟨h.rowIds, by simp, ?_⟩
@@ -243,33 +307,46 @@ theorem storeWF_legacySet {st : Store} (h : StoreWF st) (id : Name) (r : Ixn)
             · simp only [List.mem_singleton] at hx'
               subst hx'
               exact ⟨hr.2.1, hr.2.2⟩
+          · intro x hx
+            rcases List.mem_append.mp hx with hx' | hx'
+            · exact h.lowerRows x hx'
+            · simp only [List.mem_singleton] at hx'
+              subst hx'
+              exact hlr
 
 theorem storeWF_legacyDelete {st : Store} (h : StoreWF st) (id : Name) : StoreWF (legacyDelete st id).1 := by
   unfold legacyDelete
   split
   · exact h
   · exact ⟨h.names, h.entries, h.rowIds.filter _, h.rowKeys.filter _,
-      fun x hx => h.rowLocal x (List.mem_filter.mp hx).1, fun x hx => h.rowNamed x (List.mem_filter.mp hx).1⟩
+      fun x hx => h.rowLocal x (List.mem_filter.mp hx).1, fun x hx => h.rowNamed x (List.mem_filter.mp hx).1,
+      h.lowerEntries, fun x hx => h.lowerRows x (List.mem_filter.mp hx).1⟩
 
 theorem storeWF_empty (m : Bool) : StoreWF { cfgMode := m } :=
-  ⟨by simp, by simp, by simp, by simp, by simp, by simp⟩
+  ⟨by simp, by simp, by simp, by simp, by simp, by simp, by simp, by simp⟩
 
 /-! ### histories -/
 
 /-- legacy rows never carry a peer (`Intention.Apply` rejects `SourcePeer`; the legacy table predates
-    peering) and name both ends (`Intention.Validate`: SourceName / DestinationName must be set) -/
+    peering) and name both ends (`Intention.Validate`: SourceName / DestinationName must be set); the
+    names memdb lower-cases in index keys (entry / destination names, legacy row names) are lower case -/
 def Op.local : Op → Prop
-  | .lset _ r => r.peer = [] ∧ r.src ≠ [] ∧ r.dst ≠ []
+  | .lset _ r => (r.peer = [] ∧ r.src ≠ [] ∧ r.dst ≠ []) ∧ Lower r.src ∧ Lower r.dst
+  | .ent e => Lower e.name
+  | .up dst _ => Lower dst
+  | .lcreate dst _ => Lower dst
   | _ => True
 
 theorem storeWF_applyOpE {st : Store} (h : StoreWF st) (o : Op) (ho : o.local) : StoreWF (applyOpE st o).1 := by
   cases o with
-  | ent e => exact storeWF_applyEntry h e
+  | ent e => exact storeWF_applyEntry h e ho
   | entdel n => exact storeWF_deleteEntry h n
-  | up dst v => exact storeWF_mutUpsert h dst v
+  | up dst v => exact storeWF_mutUpsert h dst v ho
   | del dst src => exact storeWF_mutDelete h dst src
-  | lcreate dst v => exact storeWF_mutLegacyCreate h dst v
-  | lset id r => exact storeWF_legacySet h id r ho
+  | lcreate dst v => exact storeWF_mutLegacyCreate h dst v ho
+  | lupdate id v => exact storeWF_mutLegacyUpdate h id v
+  | ldelid id => exact storeWF_mutLegacyDelete h id
+  | lset id r => exact storeWF_legacySet h id r ho.1 ho.2
   | ldel id => exact storeWF_legacyDelete h id
 
 theorem storeWF_run {st : Store} (h : StoreWF st) (ops : List Op) (ho : ∀ o ∈ ops, o.local) : StoreWF (run st ops) := by
@@ -300,9 +377,9 @@ def SameSet (a b : Store) : Prop := ∀ i, i ∈ flatten a ↔ i ∈ flatten b
 /-- the answers a store gives: the full list, every match list, both decisions -/
 def SameAnswers (a b : Store) : Prop :=
   listAll a = listAll b ∧
-  (∀ side n, matchList a side n = matchList b side n) ∧
-  (∀ s d da ap, checkDecision a s d da ap = checkDecision b s d da ap) ∧
-  (∀ peer s d da ap, authzDecision a peer s d da ap = authzDecision b peer s d da ap)
+  (∀ side n, Lower n → matchList a side n = matchList b side n) ∧
+  (∀ s d da ap, Lower s → checkDecision a s d da ap = checkDecision b s d da ap) ∧
+  (∀ peer s d da ap, Lower d → authzDecision a peer s d da ap = authzDecision b peer s d da ap)
 
 theorem sameSet_of_listAll_eq {a b : Store} (h : listAll a = listAll b) : SameSet a b := by
   intro i
@@ -322,10 +399,10 @@ theorem sortIxns_ext {R S : List Ixn} (hR : KeysNodup R) (hS : KeysNodup S) (h :
   intro a ha b hb h1 h2
   exact hR.keyInj a ha b hb (less_tri h1 h2).2
 
-theorem matchList_sameSet {a b : Store} (ha : StoreWF a) (hb : StoreWF b) (h : SameSet a b) (side : Side) (n : Name) :
-    matchList a side n = matchList b side n := by
-  obtain ⟨R, hR, hRk, hRm⟩ := matchList_eq_sort ha side n
-  obtain ⟨S, hS, hSk, hSm⟩ := matchList_eq_sort hb side n
+theorem matchList_sameSet {a b : Store} (ha : StoreWF a) (hb : StoreWF b) (h : SameSet a b) (side : Side) (n : Name)
+    (hn : Lower n) : matchList a side n = matchList b side n := by
+  obtain ⟨R, hR, hRk, hRm⟩ := matchList_eq_sort ha side n hn
+  obtain ⟨S, hS, hSk, hSm⟩ := matchList_eq_sort hb side n hn
   rw [hR, hS]
   apply sortIxns_ext hRk hSk
   intro i
